@@ -136,6 +136,8 @@ def run_scenario(ctx, report, name, spec, timeout_ms, table, edit=None):
             if edit:
                 inserted = edit(I, P, s, mref)
             for s2, rec, _m in P.run_emit(s, None, mref=mref):
+                if pc.should_stop(I, vios):
+                    break
                 if rec is PANIC:
                     vios.append({'key': 'emit.panic', 'what': 'emit panics: %r' % (pc.pipeline_panic_events(s2)[:2],)})
                     continue
